@@ -154,11 +154,17 @@ def stall_runs(ds: DetSched, setup: Any, n: int) -> Any:
             yield runner(setup, _StallChooser(victim, after), "stall")
 
 
-def units(x: float) -> int:
+def units(x: float) -> Any:
+    """seconds → quanta; an int on the grid, else the exact float (the trace is then judged by the Python oracle only and
+    reported as a correspondence mismatch: the model's clock is integral)"""
     u = x / Q
     if abs(u - round(u)) > 1e-9:
-        raise AssertionError(f"time {x!r} is not a multiple of the quantum")
+        return u
     return int(round(u))
+
+
+def _offgrid(labels: list[list[Any]]) -> bool:
+    return any(isinstance(x, float) for lab in labels for x in lab)
 
 
 def _mods() -> tuple[Any, Any]:
@@ -468,6 +474,30 @@ def loop_analyse(cfg: dict[str, Any], run: Any) -> dict[str, Any]:
             "final_vars": last_vars, "timers": n_timers, "stops": sum(1 for e in events if e[0] == "stop")}
 
 
+def loop_truth(run: Any) -> list[list[Any]]:
+    """O's events, read off the fakes only (independent of the modelled critical sections): connections handed out by
+    accept(), services finished, and — when the serve function returned although accept() never failed — the idle stop, at
+    the moment of the loop's last accept timeout (no logical time passes between that timeout and the loop's decision)."""
+    now: Any = 0
+    evs: list[list[Any]] = []
+    last_accept_ev: tuple[str, int, Any] | None = None
+    for ev in run.trace:
+        k = ev[0]
+        if k == "tick-auto":
+            now = units(ev[2])
+        elif k == "accept":
+            evs.append(["acc", ev[2], now])
+            last_accept_ev = ("accept", len(evs), now)
+        elif k == "serve-end":
+            evs.append(["fin", ev[2], now])
+        elif k in ("accept-timeout", "accept-error"):
+            last_accept_ev = (k, len(evs), now)
+        elif k == "loop-return":
+            if last_accept_ev is not None and last_accept_ev[0] != "accept-error":
+                evs.insert(last_accept_ev[1], ["stop", last_accept_ev[2]])
+    return evs
+
+
 def worker_monitor(idle: int, grace: int, events: list[list[Any]]) -> dict[str, Any]:
     """The worker half of the property, from its text (mirror of Spec.Mon)."""
     open_: list[int] = []
@@ -511,20 +541,26 @@ def loop_judge(ctx: Any, cfg: dict[str, Any], run: Any, an: dict[str, Any], mode
         return
     if run.diverged:
         ctx.mismatch(case, "schedule", "diverged", "replayed schedule is not executable (non-determinism)")
-    pm = worker_monitor(idle or 0, grace, an["events"])
+    truth = loop_truth(run)
+    pm = worker_monitor(idle or 0, grace, truth)
+    if truth != an["events"] and not an["anomalies"]:
+        ctx.mismatch(case, an["events"], truth, "observable events: read through the modelled critical sections vs read off the fakes")
     if "open" in pm["why"]:
         ctx.fail(case, "C33:idle-exit-with-open-connection",
-                 f"the accept loop left through its idle test while an accepted connection was unfinished: events {an['events']}")
+                 f"the accept loop left through its idle test while an accepted connection was unfinished: events {truth}")
     if "early" in pm["why"]:
         ctx.fail(case, "C33:idle-exit-before-idle-timeout",
-                 f"the accept loop left less than idle_timeout={idle} quanta after its last connection: events {an['events']}")
+                 f"the accept loop left less than idle_timeout={idle} quanta after its last connection: events {truth}")
     if "early-grace" in pm["why"]:
         ctx.fail(case, "C33:idle-exit-before-startup-grace",
-                 f"the accept loop left before the start-up grace {grace} elapsed without any connection: events {an['events']}")
+                 f"the accept loop left before the start-up grace {grace} elapsed without any connection: events {truth}")
     # ---- K
     lst = run.value
     if lst is not None and (lst.timeout is None or round(lst.timeout * 1000) != _GEN["acceptTimeoutMillis"]):
         ctx.mismatch(case, _GEN["acceptTimeoutMillis"], lst.timeout, "accept timeout: extracted constant vs what the loop set on the socket")
+    if _offgrid(an["labels"]):
+        ctx.mismatch(case, "timer / timeout durations that are multiples of the quantum", [l for l in an["labels"] if l[0] == "tick"][:6],
+                     "a timer was armed with a duration that is not the configured idle_timeout / grace / accept timeout")
     if an["anomalies"]:
         ctx.mismatch(case, "modelled protocol of the accept loop", an["anomalies"],
                      "trace shape: the implementation no longer follows the modelled critical sections")
@@ -562,10 +598,13 @@ def explore_loop(ctx: Any, T: Any, cfg: dict[str, Any], dfs: int, bound: int, rn
         models: list[Any] = [None] * len(batch)
         mons: list[Any] = [None] * len(batch)
         if ctx.driver is not None:
-            models = ctx.driver.batch([("C33.loopAccepts", _loop_req(cfg, an)) for _r, an in batch])
+            on = [i for i, (_r, an) in enumerate(batch) if not _offgrid(an["labels"])]
             idle = cfg.get("idle") or 0
-            mons = ctx.driver.batch([("C33.loopMonitor", {"idle": idle, "grace": grace_of(idle), "events": an["events"]})
-                                     for _r, an in batch])
+            res = ctx.driver.batch([("C33.loopAccepts", _loop_req(cfg, batch[i][1])) for i in on])
+            res2 = ctx.driver.batch([("C33.loopMonitor", {"idle": idle, "grace": grace_of(idle), "events": batch[i][1]["events"]})
+                                     for i in on])
+            for j, i in enumerate(on):
+                models[i], mons[i] = res[j], res2[j]
         for (r, an), m, mo in zip(batch, models, mons):
             loop_judge(ctx, cfg, r, an, m, mo)
         batch.clear()
@@ -940,6 +979,46 @@ def launch_sched(T: Any, L: Any, cfg: dict[str, Any]) -> tuple[DetSched, Any]:
     return ds, setup
 
 
+def launch_truth(cfg: dict[str, Any], run: Any) -> dict[str, Any]:
+    """O, independent of the modelled protocol: the property evaluated on the ground truth of the in-memory world — which
+    workers of an endpoint are accepting when one is spawned; whether the returned path names an accepting worker when a
+    launch returns (demanded while less than `idle` has passed since that launch's last successful probe / spawn)."""
+    now: Any = 0
+    accepting: dict[str, set[int]] = {}
+    decided: dict[int, Any] = {}
+    worker_tid: dict[int, tuple[str, int]] = {}
+    violations: list[tuple[str, str]] = []
+    clobbered = False
+    for ev in run.trace:
+        k, tid = ev[0], ev[1]
+        if k == "tick-auto":
+            now = units(ev[2])
+        elif k == "worker-thread":
+            worker_tid[ev[2]] = (ev[3], ev[4])
+        elif k == "launch-begin":
+            decided[tid] = None
+        elif k == "probe" and ev[3]:
+            decided[tid] = now
+        elif k == "spawn" and isinstance(ev[2], str):
+            name = _endpoint(ev[2])
+            alive = accepting.setdefault(name, set())
+            if alive:
+                violations.append(("spawn-while-alive", f"worker {ev[3]} of endpoint {name} spawned at t={now} while worker(s) "
+                                   f"{sorted(alive)} of the same endpoint were accepting"))
+            alive.add(ev[3])
+            decided[tid] = now
+        elif k == "w-exit":
+            accepting.setdefault(ev[2], set()).discard(ev[3])
+        elif k == "fs-unlink" and tid in worker_tid and ev[3] and ev[4] is not None and ev[4] != worker_tid[tid][1]:
+            clobbered = True
+        elif k == "launch-ret":
+            t0 = decided.get(tid)
+            if not ev[4] and (t0 is None or now < t0 + cfg["idle"]):
+                violations.append(("dead-path-returned", f"launch returned {ev[3]} at t={now} (decided at t={t0}) but the path "
+                                   "names no accepting worker"))
+    return {"violations": violations, "clobbered": clobbered}
+
+
 def launch_analyse(cfg: dict[str, Any], run: Any) -> dict[str, Any]:
     """Trace → per-endpoint label sequences + observed spec events + ground-truth verdicts."""
     tr = run.trace
@@ -1103,6 +1182,9 @@ def launch_analyse(cfg: dict[str, Any], run: Any) -> dict[str, Any]:
             ep = ep_of(name)
             if e is None or e["phase"] not in ("spawn", "meta"):
                 anomalies.append(f"{k} in phase {None if e is None else e['phase']}")
+                if k == "spawn":
+                    ep["events"].append(["spawn", ev[3]])
+                    ep["accepting"].add(ev[3])
                 continue
             if e["phase"] == "meta":  # explicit socket path: no meta file
                 ep["labels"].append(["writeMeta", e["mt"]])
@@ -1111,9 +1193,6 @@ def launch_analyse(cfg: dict[str, Any], run: Any) -> dict[str, Any]:
             if k == "spawn":
                 wid = ev[3]
                 ep["labels"].append(["spawn", e["mt"], wid])
-                if ep["accepting"]:
-                    violations.append(("spawn-while-alive", f"worker {wid} of endpoint {name} spawned while worker(s) "
-                                       f"{sorted(ep['accepting'])} of the same endpoint were accepting"))
                 ep["events"].append(["spawn", wid])
                 ep["accepting"].add(wid)
                 ep["path"] = wid
@@ -1154,9 +1233,6 @@ def launch_analyse(cfg: dict[str, Any], run: Any) -> dict[str, Any]:
                     continue
                 ep["labels"].append(["ret", e["mt"]])
                 ep["events"].append(["ret", e["t0"], now])
-                if not ev[4] and now < e["t0"] + cfg["idle"]:
-                    violations.append(("dead-path-returned", f"launch of endpoint {name} returned {ev[3]} at t={now} (decided at "
-                                       f"t={e['t0']}) but the path names no accepting worker"))
             else:
                 if e["phase"] == "released":
                     ep["labels"].append(["raised", e["mt"]])
@@ -1169,9 +1245,9 @@ def launch_analyse(cfg: dict[str, Any], run: Any) -> dict[str, Any]:
     for key, e in list(episode.items()):
         if e["role"] == "launch" and e["phase"] not in ("failed",):
             anomalies.append(f"unfinished launch episode in phase {e['phase']}")
-    clob = any(ep["clobbered"] for ep in eps.values())
-    return {"eps": eps, "anomalies": anomalies, "launches": launches, "threads": len(launch_threads), "violations": violations,
-            "clobbered": clob}
+    truth = launch_truth(cfg, run)
+    return {"eps": eps, "anomalies": anomalies, "launches": launches, "threads": len(launch_threads),
+            "violations": truth["violations"], "clobbered": truth["clobbered"]}
 
 
 def launcher_monitor(idle: int, events: list[list[Any]]) -> dict[str, Any]:
@@ -1259,6 +1335,8 @@ def explore_launch(ctx: Any, T: Any, L: Any, cfg: dict[str, Any], dfs: int, boun
         reqs, idx = [], []
         for i, (_r, an) in enumerate(batch):
             for name, ep in an["eps"].items():
+                if _offgrid(ep["labels"]) or _offgrid(ep["events"]):
+                    continue
                 reqs.append(("C33.launchAccepts", {"idle": cfg["idle"], "nlink": cfg.get("nlink", True), "events": ep["labels"]}))
                 reqs.append(("C33.launchMonitor", {"idle": cfg["idle"], "events": ep["events"]}))
                 idx.append((i, name))
@@ -1415,7 +1493,7 @@ def replay(ctx: Any, case: dict[str, Any]) -> None:
             r = ds.replay(setup, case["schedule"])
         an = loop_analyse(cfg, r)
         model = mon = None
-        if ctx.driver is not None:
+        if ctx.driver is not None and not _offgrid(an["labels"]):
             model = ctx.driver.call("C33.loopAccepts", _loop_req(cfg, an))
             idle = cfg.get("idle") or 0
             mon = ctx.driver.call("C33.loopMonitor", {"idle": idle, "grace": grace_of(idle), "events": an["events"]})
@@ -1432,6 +1510,8 @@ def replay(ctx: Any, case: dict[str, Any]) -> None:
     mons: dict[str, Any] = {}
     if ctx.driver is not None:
         for name, ep in an["eps"].items():
+            if _offgrid(ep["labels"]) or _offgrid(ep["events"]):
+                continue
             models[name] = ctx.driver.call("C33.launchAccepts", {"idle": cfg["idle"], "nlink": cfg.get("nlink", True), "events": ep["labels"]})
             mons[name] = ctx.driver.call("C33.launchMonitor", {"idle": cfg["idle"], "events": ep["events"]})
     launch_judge(ctx, cfg, r, an, models, mons)
